@@ -84,18 +84,30 @@ class NonEmpty:
     def __init__(self, ctx):
         self.ctx = ctx
         self._memo = {}
+        self._busy = set()
+        self._assumed = 0
 
     def func(self, fn, depth=0):
+        """Does every call of ``fn`` produce at least one element?  Greatest fixpoint: a function that is being
+        examined further up (recursion, or a name collision in the call resolution) is assumed non-empty - if every
+        other way out of it is non-empty, so is the recursive one; results obtained under such an assumption are not
+        memoised unless they are final."""
         if fn.key in self._memo:
             return self._memo[fn.key]
-        self._memo[fn.key] = False
+        if fn.key in self._busy:
+            self._assumed += 1
+            return True
+        self._busy.add(fn.key)
+        assumed_before = self._assumed
         r = False
         if fn.is_generator:
             r = must_yield(fn.node, self.ctx.cfg(fn))
         elif depth < 3:
             rets = [n for n in walk_own(fn.node) if isinstance(n, ast.Return)]
             r = bool(rets) and all(x.value is not None and self.expr(fn, x.value) for x in rets)
-        self._memo[fn.key] = r
+        self._busy.discard(fn.key)
+        if not self._busy or self._assumed == assumed_before or not r:
+            self._memo[fn.key] = r
         return r
 
     def call(self, f, call, depth=0):
